@@ -30,6 +30,9 @@ fn main() {
 		"judge-traces" => tracejudge::judge_dir(&args[2]),
 		p => {
 			let tier = args.get(2).map(|s| s.as_str()).unwrap_or("quick");
+			if tier != "thorough" {
+				par::LIMIT_DEFAULT.store(120, std::sync::atomic::Ordering::SeqCst);
+			}
 			props::run(p, tier)
 		},
 	}
